@@ -7,7 +7,7 @@ from .common import *
 CONFIGS = ['full']
 CONFIGS_THOROUGH = ['full', 'sdp']
 TECHNIQUE = ('decision tables and store discipline of the union-find structure (MIR path rules), call-sequence rule on the Kruskal '
-             'spanning-tree loop, call-graph rule for hash-order-dependent iteration')
+             'spanning-tree loop, call-graph rule for hash-order-dependent iteration, path rule on connect_graph (structural entry inserted with a nonzero constant)')
 EXPLANATION = (
     "Partial claim. Validity of the clique tree as a whole - every structural nonzero covered, separators = intersections with the parent, "
     "running-intersection property, block sizes, termination and panic-freedom of the supernode / merge code - is a graph-theoretic "
@@ -18,7 +18,9 @@ EXPLANATION = (
     "a root under a root (never an inner node), in either direction, and raises a rank only on equal ranks and only for the new root; "
     "in_same_set compares roots; (R3) Kruskal visits the edges in the order of the reversed weight sort, marks an edge exactly when its end "
     "points are in different sets and unites them, and stops after num_cliques - 1 edges; (R4) no hash-order-dependent iteration is "
-    "reachable in the chordal module (C05.R2 re-run), so the tree is a function of the pattern.")
+    "reachable in the chordal module (C05.R2 re-run), so the tree is a function of the pattern."
+    " (R5) connect_graph links every column without sub-diagonal entry to its successor with a nonzero structural entry (set_entry discards new zeros), for columns 0..n-1, and find_graph returns the connected pattern."
+    " (R6) clique-graph merge: the removed clique is deleted from the adjacency table and purged from every remaining adjacency set; (R7) every test that decodes the signed supernode array of pothen_sun is `< 0` (0 is a valid representative), the unassigned test is `== -1`; (R8) clique_tree_from_graph recomputes the edge weights as intersection sizes unconditionally before Kruskal, then parents, post-order, split.")
 ASSUMPTIONS = ['rustc MIR construction and trait resolution are correct',
                'sortperm_rev / permute / findnz mean what their names say (C16 territory)']
 
@@ -124,12 +126,170 @@ def kruskal(rep, F, tag):
     R.guard(body)
 
 
+def connected_pattern(rep, F, tag):
+    """The supernodal elimination tree is computed from the filled pattern L; it is a tree (one root) only if L's graph is connected.
+    connect_graph guarantees that by inserting a sub-diagonal entry (j+1, j) into every column that has no entry below its diagonal.
+    The entry is structural, but CscMatrix::set_entry discards a *new* entry whose value is zero - so the inserted value must be a
+    nonzero constant, it must go to (j+1, j), exactly in the columns found unconnected, for every column but the last."""
+    R = rep.rule('C17.R5', 'connect_graph links every column without a sub-diagonal entry to its successor with a nonzero structural entry; find_graph returns the connected pattern')
+
+    def body():
+        f = F.one(name='connect_graph')
+        se = F.one(name='set_entry', adt='CscMatrix')
+        drops_zero = any(k.startswith('eq(arg3, zero())') or k.startswith('ne(arg3, zero())') for val, ret, ev, tr in Walker(se, cut_loops=True).leaves() for k in val)
+        OUT = 'discr(next(into_iter(Range::Range(0_usize, subwithoverflow(ncols(arg1), 1_usize).0))))'
+        J = OUT[len('discr('):-1] + '@Some.0'
+        n_ins = n_skip = 0
+        for val, ret, ev, tr in Walker(f, cut_loops=True).leaves():
+            if ret[0] == 'diverge':
+                continue
+            outer = [k for k in val if k.startswith('discr(next(into_iter(Range::Range(')]
+            R.check(all(k == OUT for k in outer), 'all-but-last-column' + tag, 'connect_graph loops over %s, expected columns 0 .. n-1' % [k[5:80] for k in outer], f.loc())
+            if not outer or val[outer[0]] != 1:
+                continue
+            inner = [k for k in val if k.startswith('discr(next(into_iter(index(arg1.rowval, Range::Range(index(arg1.colptr, %s)' % J)]
+            below = [k for k in val if k.startswith('lt(%s, ' % J) and 'arg1.rowval' in k]
+            calls = [split_args(str(e[2])) for e in ev if e[0] == 'call' and e[1] == 'set_entry']
+            found = any(val[k] == 1 for k in below)
+            exhausted = bool(inner) and val[inner[0]] == 0
+            if found:
+                n_skip += 1
+                R.check(not calls, 'insert-only-if-unconnected' + tag, 'an entry is inserted into a column that already has a sub-diagonal entry', f.loc())
+            elif exhausted:
+                n_ins += 1
+                want_pos = 'tuple(addwithoverflow(%s, 1_usize).0, %s)' % (J, J)
+                ok = len(calls) == 1 and calls[0][0] == 'arg1' and calls[0][1] == want_pos
+                R.check(ok, 'insert-subdiagonal' + tag, 'a column without sub-diagonal entry gets %s, expected set_entry(L, (j+1, j), .)' % [c[1][:100] for c in calls], f.loc())
+                if len(calls) == 1:
+                    v = calls[0][2]
+                    nonzero = v == 'one()' or (_re_num(v) is not None and _re_num(v) != 0.0)
+                    R.check(nonzero or not drops_zero, 'insert-nonzero' + tag,
+                            'the linking entry is inserted with the value %s, but CscMatrix::set_entry discards new entries that compare equal to zero: nothing is '
+                            'inserted, the pattern stays disconnected and the supernode tree has several roots' % v, f.loc())
+        R.check(n_ins >= 1 and n_skip >= 1, 'paths' + tag, 'connect_graph: %d inserting / %d skipping column paths analysed' % (n_ins, n_skip), f.loc())
+        R.check(any('rowval' in k and 'colptr' in k for val, ret, ev, tr in Walker(f, cut_loops=True).leaves() for k in val), 'scans-column' + tag, 'connect_graph does not scan the stored rows of column j', f.loc())
+        g = F.one(name='find_graph')
+        cs = calls_named(g, 'connect_graph')
+        R.check(len(cs) == 1 and all(g.dominates(cs[0].bb, r) for r in g.returns), 'called' + tag, 'find_graph does not call connect_graph on every path to its return', g.loc())
+        if cs:
+            a = canon(g.sym_operand(cs[0].args[0]))
+            r0 = canon(g.sym_local(0))
+            R.check(r0.startswith('tuple(%s, ' % a), 'returns-connected' + tag, 'find_graph connects %s but returns %s' % (a, r0[:80]), g.loc())
+
+    R.guard(body)
+
+
+def _re_num(v):
+    m = re.fullmatch(r'(-?\d+(\.\d+)?)(f64|f32|_\w+)?', v)
+    return float(m.group(1)) if m else None
+
+
+def representative_encoding(rep, F, tag):
+    """pothen_sun encodes supernode membership in one signed array: snode_index[v] < 0 marks v as the representative of its supernode
+    (the magnitude counts members), a value >= 0 is the *index of the representative* - and 0 is a valid vertex (the one eliminated
+    first).  Every place that decodes the array must therefore test `< 0`; `<= 0` (or `< 1`) treats "member of supernode 0" as
+    "representative", and supernode 0 then never receives its tree parent.  Belief-contradiction rule: all decoding sites agree."""
+    R = rep.rule('C17.R7', 'pothen_sun: every test that decodes snode_index compares with `< 0` (0 is a valid representative); the unassigned test is `== -1`')
+
+    def body():
+        f = F.one(name='pothen_sun')
+        INIT = 'from_elem(-1_isize, len(arg1))'
+        sites = set()
+        for val, ret, ev, tr in Walker(f, cut_loops=True).leaves():
+            for k in val:
+                if ('index(%s, ' % INIT) in k and k[:3] in ('lt(', 'le(', 'eq(', 'ne('):
+                    sites.add(k)
+        for g in F.closures_of.get(f.key, []):
+            c0 = canon(g.sym_local(0))
+            if 'isize' in c0:
+                sites.add('closure:' + c0)
+        dec = 0
+        for k in sorted(sites):
+            if k.startswith('closure:'):
+                ok = k == 'closure:lt(arg2, 0_isize)'
+                dec += 1
+            elif k.startswith(('eq(', 'ne(')):
+                ok = re.fullmatch(r'(eq|ne)\(-1_isize, index\(.*\)\)|(eq|ne)\(index\(.*\), -1_isize\)', k) is not None
+            else:
+                ok = re.fullmatch(r'lt\(index\(.*\), 0_isize\)', k) is not None
+                dec += 1
+            R.check(ok, 'decode|%s%s' % (re.sub(r'index\(from_elem\(-1_isize, len\(arg1\)\), ', 'snode_index[', k)[:70], tag),
+                    'pothen_sun decodes the signed supernode array with %s: representatives are the entries < 0 and 0 is a valid representative index, so the only '
+                    'admissible tests are `< 0` (and `== -1` for "not yet assigned")' % k.replace(INIT, 'snode_index')[:160], f.loc())
+        R.check(dec >= 3, 'decode-sites' + tag, 'only %d decoding tests of snode_index found in pothen_sun' % dec, f.loc())
+
+    R.guard(body)
+
+
+def merge_bookkeeping(rep, F, tag):
+    """After two cliques are merged in the clique-graph strategy the removed clique must disappear from the adjacency structure
+    completely: its own row is removed and it is deleted from *every* remaining adjacency set.  Purging only a subset (e.g. the
+    survivor's neighbours) leaves a stale id behind that resurfaces when the survivor is absorbed later (lookup of a missing key)."""
+    R = rep.rule('C17.R6', 'clique-graph merge: the removed clique is deleted from the adjacency table and purged from every remaining adjacency set')
+
+    def body():
+        us = [x for x in F.find(name='update_strategy') if 'CliqueGraph' in (x.impl_self or '') + (x.impl_adt or '')]
+        if len(us) != 1:
+            raise AnchorError('CliqueGraphMergeStrategy::update_strategy matched %d functions' % len(us))
+        u = us[0]
+        removed = purge = None
+        others = []
+        for val, ret, ev, tr in Walker(u, cut_loops=True).leaves():
+            for e in ev:
+                if e[0] == 'call' and e[1] == 'remove' and str(e[2]).startswith('remove(self.adjacency_table, '):
+                    removed = split_args(str(e[2]))[1]
+                if e[0] == 'call' and e[1] in ('shift_remove', 'swap_remove', 'remove'):
+                    a = split_args(str(e[2]))
+                    if re.fullmatch(r'next\(into_iter\((values_mut|iter_mut)\(self\.adjacency_table\)\)\)@Some\.0(\.1)?', a[0]):
+                        purge = a[1]
+                    elif 'adjacency_table' in a[0] and a[0] != 'self.adjacency_table':
+                        others.append((a[0][:80], a[1][:40]))
+        R.check(removed is not None, 'row-removed' + tag, 'update_strategy does not remove the merged clique\'s row from the adjacency table', u.loc())
+        R.check(purge is not None and purge == removed, 'purged-everywhere' + tag,
+                'the removed clique %s is purged from %s: it must be deleted from every remaining adjacency set (a loop over all values of the table), otherwise a stale '
+                'id survives in the sets that were skipped and is looked up after a later merge' % (removed, 'all sets: ' + str(purge) if purge else 'only %s' % others[:3]), u.loc())
+
+    R.guard(body)
+
+
+def tree_from_graph(rep, F, tag):
+    """A clique tree is a maximum-weight spanning tree of the clique graph *when the weights are the intersection sizes*.  During merging the
+    edges carry the merge scores; clique_tree_from_graph must rewrite them (clique_intersections over the current cliques) on every
+    path before Kruskal runs, then derive parents, post-order and the supernode / separator split, in that order."""
+    R = rep.rule('C17.R8', 'clique_tree_from_graph: edge weights are recomputed as intersection sizes unconditionally before Kruskal; then parents, post-order, split')
+
+    def body():
+        f = F.one(name='clique_tree_from_graph')
+        order = ['clique_intersections', 'kruskal', 'determine_parent_cliques', 'post_order', 'split_cliques']
+        cs = {nm: calls_named(f, nm) for nm in order}
+        for nm in order:
+            R.check(len(cs[nm]) == 1, 'step|%s%s' % (nm, tag), 'clique_tree_from_graph calls %s %d times' % (nm, len(cs[nm])), f.loc())
+        if not all(len(cs[nm]) == 1 for nm in order):
+            return
+        pd = f.postdominators()
+        for a, b in zip(order, order[1:]):
+            ca, cb = cs[a][0], cs[b][0]
+            R.check(f.dominates(ca.bb, cb.bb) and ca.bb != cb.bb, 'before|%s|%s%s' % (a, b, tag),
+                    '%s does not precede %s on every path%s' % (a, b, ': Kruskal would maximise the merge scores left on the edges, and the spanning tree need not be a clique tree' if a == 'clique_intersections' else ''), f.loc(cb.sp))
+        for nm in order:
+            R.check(cs[nm][0].bb in pd.get(0, set()) or cs[nm][0].bb == 0, 'unconditional|%s%s' % (nm, tag), '%s is skipped on some path through clique_tree_from_graph' % nm, f.loc(cs[nm][0].sp))
+        a = [canon(f.sym_operand(x)) for x in cs['clique_intersections'][0].args]
+        k = [canon(f.sym_operand(x)) for x in cs['kruskal'][0].args]
+        R.check(a == ['self.edges', 'arg2.snode'] and k == ['self.edges', 'arg2.n_cliques'], 'arguments' + tag, 'clique_intersections(%s), kruskal(%s)' % (a, k), f.loc())
+
+    R.guard(body)
+
+
 def run(ctx, rep, tier):
     for cfg in (CONFIGS_THOROUGH if tier == 'thorough' else CONFIGS):
         F = ctx.facts(cfg)
         tag = '[%s]' % cfg
         union_find(rep, F, tag)
         kruskal(rep, F, tag)
+        connected_pattern(rep, F, tag)
+        merge_bookkeeping(rep, F, tag)
+        representative_encoding(rep, F, tag)
+        tree_from_graph(rep, F, tag)
     from . import c05, c04
     for cfg in CONFIGS:
         c05.hash_order(c04._Ren(rep, 'C05.R2', 'C17.R4'), ctx.facts(cfg), ctx.cg(cfg), '[%s]' % cfg)
